@@ -21,6 +21,7 @@ EXPLANATION = (
     "type and every provided key is stored unconditionally; R15.6 look-up order thread map -> SQLLINEAGE_<key> environment -> "
     "declared default, presence tested by `is not None`. Does not decide: atomicity of single-key dict/set operations "
     "(assumed: GIL / per-object locks), unscoped use SQLLineageConfig(K=v) without `with`."
+    " R15.5 also requires that no path of the coercion function returns the value as it came. R15.7 no thread / process pool or new thread anywhere in the package (scoped overrides are looked up under the calling thread's id)."
 )
 RULE_TEXT = (
     "one obligation per container access / store / raise / return / look-up site in the loader class; non-trivial = "
